@@ -131,6 +131,27 @@ class Case:
         self.key = key if key is not None else json.dumps(inp, sort_keys=True, default=str)
 
 
+def relayout(arr, rnd):
+    """the same logical array (same shape, dtype, element sequence) in a randomly chosen memory layout:
+    C-contiguous, Fortran-ordered, a transposed view of a transposed copy, or a strided view of a larger
+    buffer.  Results must never depend on this."""
+    import numpy as np
+    a = np.asarray(arr)
+    if a.ndim == 0:
+        return a
+    k = rnd.randrange(4)
+    if k == 0:
+        return np.ascontiguousarray(a)
+    if k == 1:
+        return np.asfortranarray(a) if a.ndim >= 2 else a[::-1].copy()[::-1]
+    if k == 2 and a.ndim >= 2:
+        return a.T.copy().T
+    big = np.zeros(tuple(2 * n for n in a.shape), dtype=a.dtype)
+    sl = tuple(slice(None, None, 2) for _ in a.shape)
+    big[sl] = a
+    return big[sl]
+
+
 def guarded(make_case, inp, kind):
     """run a case constructor; if the implementation (or the observation of its output) raises on an
     input that is expected to work, turn that into a violating case carrying the input, instead of
